@@ -198,3 +198,5 @@ RULES.append(("C12.STATECELL", "the state that is threaded from line to line obe
 
 RULES.append(("C12.JUMP", "labels and the ♡ target work across lines: area evaluation, label lookup/registration and ♡ return of execute_one (shared with C01.JUMP)", p_c01.rule_area_jump))
 RULES.append(("C12.STEP", "each entered command is executed as the language defines it: six arms of execute_one (shared with C01.ARM)", p_c01.rule_arms))
+
+RULES.append(("C12.INIT", "the state a session starts from (and `clear` returns to): empty, stack 3 selected, no jump source (shared with C01.INIT)", p_c01.rule_init))
